@@ -1,7 +1,8 @@
 """C10 — TFM/PL readers (partial): explicit/unwrap sites and narrow arithmetic
 reachable from the conversion entry points."""
 from ..pps_run import run_pps
-from ..facts import strip_generics
+from ..facts import strip_generics, callee_name, AnchorError
+from ..dataflow import op_place
 
 CHA = {"tfm.lib", "tftopl.bin", "pltotf.bin", "common.lib"}
 ENTRIES = ["tfm::algorithms::tfm_to_pl", "tfm::algorithms::pl_to_tfm", "pltotf::Cli::run", "tftopl::Cli::run"]
@@ -60,6 +61,64 @@ def r10_3(F, R):
     R.floor("R10.3", "sub-file size fields", len(fields), 11)
 
 
+def r10_4(F, R):
+    from ..cfg import Defs, reachable
+    R.rule("R10.4", "PL reader: every warning that can be in `errors` when File::from_ast sorts them by `knuth_pltotf_offset.expect(..)` carries an offset: "
+                    "each ParseWarning built in from_ast (or a closure created in it) on a path that reaches the sort has `knuth_pltotf_offset: Some(..)`; "
+                    "a warning without one makes the sort's key function panic as soon as the file has a second warning")
+    fa = [f for f in F.fns.values() if strip_generics(f.name) == "tfm::pl::File::from_ast"]
+    if len(fa) != 1:
+        raise AnchorError("R10.4: from_ast: %d matches" % len(fa))
+    fa = fa[0]
+    sorts = [bi for bi, t in fa.calls() if strip_generics(callee_name(t) or "").endswith("::sort_by_key")]
+    if len(sorts) != 1:
+        raise AnchorError("R10.4: %d sort_by_key calls in from_ast" % len(sorts))
+    sort_b = sorts[0]
+    reach_sort = {b for b in range(len(fa.blocks)) if b == sort_b or sort_b in reachable(fa, b)}
+    # closures created before the sort
+    early_closures = set()
+    for bi, b in enumerate(fa.blocks):
+        for st in b["s"]:
+            if st["k"] == "=" and st["rv"]["k"] == "agg" and st["rv"].get("ak") == "closure" and bi in reach_sort:
+                early_closures.add(st["rv"]["closure"])
+    n = 0
+    bodies = [(fa, reach_sort)]
+    for f in F.fns.values():
+        if f.name.startswith(fa.name + "::{closure") and any(f.name == c or f.name.startswith(c + "::") or f.id == c for c in early_closures):
+            bodies.append((f, None))
+    for fn, rs in bodies:
+        defs = Defs(fn)
+        for bi, b in enumerate(fn.blocks):
+            if b.get("cleanup") or (rs is not None and bi not in rs):
+                continue
+            for st in b["s"]:
+                if not (st["k"] == "=" and st["rv"]["k"] == "agg" and st["rv"].get("ak") == "adt" and st["rv"]["adt"].endswith("pl::error::ParseWarning")):
+                    continue
+                n += 1
+                ops = st["rv"]["ops"]
+                # field order: span, knuth_pltotf_offset, kind
+                off, kind = ops[1], ops[2]
+
+                def agg_of(o):
+                    p = op_place(o)
+                    d = defs.single(p["l"]) if p is not None and not p["p"] else None
+                    while d and d[0] == "st" and d[3]["k"] == "=" and d[3]["rv"]["k"] == "use":
+                        p = op_place(d[3]["rv"]["op"])
+                        d = defs.single(p["l"]) if p is not None and not p["p"] else None
+                    if d and d[0] == "st" and d[3]["k"] == "=" and d[3]["rv"]["k"] == "agg" and d[3]["rv"].get("ak") == "adt":
+                        return d[3]["rv"]
+                    return None
+                oa, ka = agg_of(off), agg_of(kind)
+                kname = ka["variant"] if ka else "?"
+                inst = "from_ast/offset:%s" % kname
+                if oa is not None and oa["variant"] == "None":
+                    R.violation("R10.4", inst, "File::from_ast pushes the warning %s with `knuth_pltotf_offset: None` before the warnings are sorted by "
+                                "`knuth_pltotf_offset.expect(..)`: with two or more warnings in the file pl_to_tfm panics" % kname, fn.loc(st))
+                else:
+                    R.ok("R10.4", inst, "offset populated", fn.loc(st), how="aggregate")
+    R.floor("R10.4", "warnings built before the sort", n, 2)
+
+
 def narrow_only(fn, site):
     import os
     if os.environ.get("TXV_ARM_ALL"):
@@ -85,6 +144,7 @@ def run(F, R, tier):
                     "the entry points is discharged (constant, checked guard) or audited, or a finding")
     kinds = ("K1", "K2", "K3", "K4")
     r10_3(F, R)
+    r10_4(F, R)
 
     def armed(fn, site):
         return narrow_only(fn, site)
